@@ -553,10 +553,12 @@ func (s *state) evalCall(node *ast.CallNode) {
 // buffer and returns that result.  nothing is written to the main output.
 func (s *state) renderBlock(node ast.Node) []byte {
 	var buf bytes.Buffer
-	origWriter := s.wr
+	// the command that owns the block stays the current node: a later failure
+	// in it (e.g. in the callee of a {call}) is reported at its line.
+	origWriter, origNode := s.wr, s.node
 	s.wr = &buf
 	s.walk(node)
-	s.wr = origWriter
+	s.wr, s.node = origWriter, origNode
 	return buf.Bytes()
 }
 
